@@ -67,6 +67,9 @@ if #[cfg(feature = "alloc")] {
     mod util;
     mod transcript;
 
+    #[cfg(dusk_plonk_verif)]
+    pub mod verif;
+
 });
 
 #[cfg(feature = "debug")]
